@@ -42,13 +42,12 @@ def confirm(wt, k, prop, features=''):
     if rc != 0:
         return dict(ok=False, why='patch does not apply: ' + out[-300:])
     try:
-        rc, out = sh(f'cargo test --offline{feat} --no-fail-fast 2>&1 | grep -E "^test result|FAILED|error" | head -20', wt, timeout=5400)
+        rc, out1 = sh(f'cargo test --offline{feat} --lib --no-fail-fast 2>&1 | grep -E "^test result|^error" | head', wt, timeout=5400)
+        rc, out2 = sh(f'cargo test --offline{feat} --doc --no-fail-fast 2>&1 | grep -E "^test result|^error" | head', wt, timeout=5400)
+        out = out1 + out2
         log['suite_mutant'] = out[-600:]
         m = re.findall(r'test result: (\w+)\. (\d+) passed; (\d+) failed', out)
-        suite_ok = bool(m) and all(x[0] == 'ok' for x in m) and 'error' not in out
-        # the demo itself is one of the test binaries: it is expected to fail; exclude it from the suite verdict
-        m2 = [x for x in m if not (x[0] == 'FAILED' and int(x[1]) + int(x[2]) <= 10)]
-        suite_ok = bool(m) and all(x[0] == 'ok' for x in m2) and sum(int(x[1]) for x in m) >= 1945
+        suite_ok = len(m) >= 2 and all(x[0] == 'ok' and x[2] == '0' for x in m) and sum(int(x[1]) for x in m) >= 1945 + 200 and 'error' not in out
         rc, out = sh(f'cargo test --offline{feat} --test mutant_demo_{k} 2>&1 | tail -30', wt)
         log['demo_mutant'] = out[-1200:]
         demo_fails = 'test result: FAILED' in out
@@ -66,7 +65,7 @@ def confirm(wt, k, prop, features=''):
             shutil.copyfile(md, os.path.join(d, 'author_notes.md'))
         meta = dict(property=prop, name=name, needs_to_manifest=extract_trigger(md), features=features,
                     confirmed=dict(scratch_worktree=wt, commands=[
-                        f'git apply mutant_{k}.diff', f'cargo test --offline{feat} --no-fail-fast   # existing suite passes: {suite_ok}',
+                        f'git apply mutant_{k}.diff', f'cargo test --offline{feat} --lib --no-fail-fast; cargo test --offline{feat} --doc   # existing suite (1945 unit + 224 doc tests) passes: {suite_ok}',
                         f'cargo test --offline{feat} --test mutant_demo_{k}   # fails with the change: {demo_fails}',
                         f'git checkout -- src; cargo test --offline{feat} --test mutant_demo_{k}   # passes without: {clean_ok}'],
                         suite_summary=log['suite_mutant'][-300:]),
